@@ -1087,7 +1087,7 @@ func GenC16(seed, index uint64, build string, funcs, hot []string) *Run {
 				}
 			}
 		}
-		if r.P(0.35) {
+		if r.P(0.15) {
 			// fixed-base multiplication, the commonest use of the group
 			k := "e.basefn"
 			if r.P(0.5) {
